@@ -63,10 +63,11 @@ Proof.
   destruct r; reflexivity.
 Qed.
 
-(** the domain on which the C integer types hold the members and every offset *)
+(** the domain on which the C integer types hold the members and every offset; M->data points into the array *)
 Definition c_dom (h : hdr) (fl : Z) (mem : list N) : Prop :=
   Z.of_nat (h_nrows h) <= 2147483647 /\ Z.of_nat (h_ncols h) <= 2147483647 /\
-  Z.of_nat (h_rowstride h) < 2 ^ 62 /\ 0 <= fl <= 255 /\ Z.of_nat (List.length mem) < 2 ^ 48.
+  Z.of_nat (h_rowstride h) < 2 ^ 62 /\ 0 <= fl <= 255 /\ Z.of_nat (List.length mem) < 2 ^ 48 /\
+  (h_off h <= List.length mem)%nat.
 
 (** * 64-bit words in Z and in N *)
 Definition w64 (z : Z) : Prop := 0 <= z < M64.
@@ -304,7 +305,7 @@ Lemma dom_facts h fl mem i k : valid h mem -> c_dom h fl mem -> (i < h_nrows h)%
   Z.of_nat (row_addr h i) < 2 ^ 62 /\ Z.of_nat i <= 2147483647.
 Proof.
   intros Hv Hd Hi Hk. pose proof (valid_word h mem i k Hv Hi Hk) as Hp.
-  destruct Hd as (H1 & H2 & H3 & H4 & H5). unfold row_addr in *. repeat split; try lia; nia.
+  destruct Hd as (H1 & H2 & H3 & H4 & H5 & H6). unfold row_addr in *. repeat split; try lia; nia.
 Qed.
 
 (** * mzd_read_bit (mzd.h:440) *)
@@ -328,7 +329,7 @@ Proof.
   intros Hv Hd Hi Hj Hw. pose proof (valid_hdr_ok _ _ Hv) as Hok. pose proof (valid_mem_ok _ _ Hv) as Hm.
   assert (Hk : (j / 64 < h_width h)%nat) by now apply width_pos.
   destruct (dom_facts h fl mem i (j / 64) Hv Hd Hi Hk) as (Hp & Hri & Hra & Hbig & Hii).
-  pose proof Hd as (D1 & D2 & D3 & D4 & D5).
+  pose proof Hd as (D1 & D2 & D3 & D4 & D5 & D6).
   unfold w_read_bit in Hw. rewrite rd_ok in Hw by assumption. cbn [WMat.bind] in Hw. apply wok_inj in Hw. subst b.
   apply run_acc_intro; [reflexivity|]. unfold hbundle. change DEPTH with (S (S (S 9))).
   cm_enter "mzd_read_bit"%string f_mzd_read_bit. cm_run.
@@ -349,7 +350,7 @@ Proof.
   intros Hv Hd Hi Hj Hw. pose proof (valid_hdr_ok _ _ Hv) as Hok. pose proof (valid_mem_ok _ _ Hv) as Hm.
   assert (Hk : (j / 64 < h_width h)%nat) by now apply width_pos.
   destruct (dom_facts h fl mem i (j / 64) Hv Hd Hi Hk) as (Hp & Hri & Hra & Hbig & Hii).
-  pose proof Hd as (D1 & D2 & D3 & D4 & D5).
+  pose proof Hd as (D1 & D2 & D3 & D4 & D5 & D6).
   unfold w_write_bit in Hw. rewrite rd_ok in Hw by assumption. cbn [WMat.bind] in Hw.
   rewrite wr_ok in Hw by assumption. apply wok_inj in Hw. subst m'.
   assert (Hvb : 0 <= Z.b2z v <= 1) by (destruct v; cbn; lia).
@@ -372,7 +373,7 @@ Proof.
   intros Hv Hd Hx Hn Hy Hw. pose proof (valid_hdr_ok _ _ Hv) as Hok. pose proof (valid_mem_ok _ _ Hv) as Hm.
   assert (Hk : (y / 64 < h_width h)%nat) by (apply width_pos; [assumption|lia]).
   destruct (dom_facts h fl mem x (y / 64) Hv Hd Hx Hk) as (Hp & Hri & Hra & Hbig & Hii).
-  pose proof Hd as (D1 & D2 & D3 & D4 & D5).
+  pose proof Hd as (D1 & D2 & D3 & D4 & D5 & D6).
   unfold w_read_bits in Hw. destruct (Nat.ltb_spec 64 n); [lia|].
   apply run_acc_intro; [reflexivity|]. unfold hbundle. change DEPTH with (S (S (S 9))).
   cm_enter "mzd_read_bits"%string f_mzd_read_bits.
